@@ -313,6 +313,8 @@ class URL:
 
                 if hostname[-1] != "]":
                     hostname = hostname.rsplit(":", 1)[0]
+            elif ":" in hostname and not hostname.startswith("["):
+                hostname = f"[{hostname}]"
 
             netloc = hostname
             if port is not None:
